@@ -14,14 +14,18 @@ REG, CREATE, ARM, CLEAR, REMOVE, INSERT = 50, 1, 2, 39, 33, 30
 DELETE, DELETE_MANY, DELETE_ALL, EDELETE, MAINTAIN = 10, 11, 13, 12, 14
 DROP_STORAGE, DROP_WORLD = 60, 99
 MASK, GET, GET_ALL, JOIN, SLICE, COUNT, PROBE_ALL = 37, 31, 32, 80, 38, 35, 24
+CS_NEW, CS_ADD, CS_CLEAR, CS_DUMP, CS_DROP = 81, 82, 85, 86, 87      # changeset histories (first op CS_NEW)
 
-DESTROYING = {CLEAR, REMOVE, INSERT, DELETE, DELETE_MANY, DELETE_ALL, MAINTAIN, DROP_STORAGE, DROP_WORLD}
-OBSERVING = {MASK, GET, GET_ALL, JOIN, SLICE, COUNT, PROBE_ALL}
+DESTROYING = {CLEAR, REMOVE, INSERT, DELETE, DELETE_MANY, DELETE_ALL, MAINTAIN, DROP_STORAGE, DROP_WORLD,
+              CS_ADD, CS_CLEAR, CS_DROP}
+OBSERVING = {MASK, GET, GET_ALL, JOIN, SLICE, COUNT, PROBE_ALL, CS_DUMP}
 
 NAMES = {REG: "register", CREATE: "create", ARM: "arm_fault", CLEAR: "clear", REMOVE: "remove", INSERT: "insert",
          DELETE: "delete_entity", DELETE_MANY: "delete_entities", DELETE_ALL: "delete_all", EDELETE: "entities.delete",
          MAINTAIN: "maintain", DROP_STORAGE: "drop_storage", DROP_WORLD: "drop_world", MASK: "mask", GET: "get",
-         GET_ALL: "get_all", JOIN: "join", SLICE: "slice", COUNT: "count", PROBE_ALL: "probe_all"}
+         GET_ALL: "get_all", JOIN: "join", SLICE: "slice", COUNT: "count", PROBE_ALL: "probe_all",
+         CS_NEW: "changeset", CS_ADD: "changeset.add", CS_CLEAR: "changeset.clear", CS_DUMP: "changeset.join",
+         CS_DROP: "changeset.drop"}
 
 KINDS = ["Vec", "Dense", "Default", "HashMap", "BTree", "Null"]
 SID_NAMES = (KINDS + ["Flagged<%s>" % k for k in KINDS[:5]] + ["DerefFlagged<%s>" % k for k in KINDS[:5]])
@@ -69,6 +73,8 @@ def pretty(h):
             out.append("delete_entities(%s)" % ", ".join("h%d" % x for x in a))
         elif code == ARM:
             out.append("arm_fault(%d)" % a[0])
+        elif code == CS_ADD:
+            out.append("changeset.add(h%d, (%d,%d))" % (a[0], a[1], a[2]))
         else:
             out.append(nm)
     return "; ".join(out)
@@ -320,7 +326,48 @@ def base_scenarios(rng, tier):
         target = rng.choice(ALL_SIDS)
         h, tpos = scenario(rng, target, kind, rng.choice(["dense", "sparse"]), n_others=rng.randint(3, 6))
         out.append(("cross/%s" % kind, h, tpos))
+    for _ in range(8 if tier == "quick" else 60):
+        for kind in ("add", "clear", "drop"):
+            h, tpos = cs_scenario(rng, kind)
+            out.append(("changeset/%s" % kind, h, tpos))
     return out
+
+
+def cs_scenario(rng, kind):
+    """a ChangeSet holding values with destructors: adds (also onto present entries: `+=` destroys its
+    argument), then the destroying operation `kind`, a dump, more adds, a second clear / drop"""
+    uid = [rng.randrange(1, 50) * 1000]
+
+    def fresh():
+        uid[0] += 1
+        return uid[0]
+
+    n = rng.randint(1, 6)
+    h = [(CS_NEW, [])] + [(CREATE, [])] * n
+    present = []
+    for _ in range(rng.randint(0 if kind == "add" else 1, 7)):
+        e = rng.randrange(n)
+        h.append((CS_ADD, [e, fresh(), rng.randint(-9, 9)]))
+        present.append(e)
+    if rng.random() < 0.3:
+        h.append((CS_DUMP, []))
+    if kind == "add":
+        e = rng.choice(present) if present and rng.random() < 0.8 else rng.randrange(n)
+        h.append((CS_ADD, [e, fresh(), rng.randint(-9, 9)]))
+    elif kind == "clear":
+        h.append((CS_CLEAR, []))
+    else:
+        h.append((CS_DROP, []))
+    tpos = len(h) - 1
+    h.append((CS_DUMP, []))
+    for _ in range(rng.randint(1, 5)):
+        h.append((CS_ADD, [rng.randrange(n), fresh(), rng.randint(-9, 9)]))
+    h.append((CS_DUMP, []))
+    h.append((rng.choice([CS_CLEAR, CS_DROP, CS_CLEAR]), []))
+    h.append((CS_DUMP, []))
+    if rng.random() < 0.5:
+        h.append((CS_ADD, [rng.randrange(n), fresh(), 1]))
+    return h, tpos
 
 
 def destroying_positions(h):
